@@ -75,7 +75,7 @@ func (w *escapeeWriter) Write(b []byte) (int, error) {
 type Runtime struct {
 	*escapeeWriter
 	*scope
-	content func(*Runtime, Expression)
+	content func(*Runtime, Expression) reflect.Value
 
 	context reflect.Value
 }
@@ -360,7 +360,8 @@ func (st *Runtime) executeLetList(set *SetNode) {
 	}
 }
 
-func (st *Runtime) executeYieldBlock(block *BlockNode, blockParam, yieldParam *BlockParameterList, expression Expression, content *ListNode) {
+// executeYieldBlock renders block; the result is the value of the last return statement its body executed, if any.
+func (st *Runtime) executeYieldBlock(block *BlockNode, blockParam, yieldParam *BlockParameterList, expression Expression, content *ListNode) (returnValue reflect.Value) {
 
 	needNewScope := len(blockParam.List) > 0 || len(yieldParam.List) > 0
 	if needNewScope {
@@ -389,7 +390,7 @@ func (st *Runtime) executeYieldBlock(block *BlockNode, blockParam, yieldParam *B
 	mycontent := st.content
 	if content != nil {
 		myscope := st.scope
-		st.content = func(st *Runtime, expression Expression) {
+		st.content = func(st *Runtime, expression Expression) (returnValue reflect.Value) {
 			outscope := st.scope
 			outcontent := st.content
 			// also when the content fails: the lists around the yield pop the scopes they pushed on top of outscope
@@ -404,27 +405,29 @@ func (st *Runtime) executeYieldBlock(block *BlockNode, blockParam, yieldParam *B
 			if expression != nil {
 				context := st.context
 				st.context = st.evalPrimaryExpressionGroup(expression)
-				st.executeList(content)
+				returnValue = st.executeList(content)
 				st.context = context
 			} else {
-				st.executeList(content)
+				returnValue = st.executeList(content)
 			}
+			return returnValue
 		}
 	}
 
 	if expression != nil {
 		context := st.context
 		st.context = st.evalPrimaryExpressionGroup(expression)
-		st.executeList(block.List)
+		returnValue = st.executeList(block.List)
 		st.context = context
 	} else {
-		st.executeList(block.List)
+		returnValue = st.executeList(block.List)
 	}
 
 	st.content = mycontent
 	if needNewScope {
 		st.releaseScope()
 	}
+	return returnValue
 }
 
 func (st *Runtime) executeList(list *ListNode) (returnValue reflect.Value) {
@@ -569,14 +572,14 @@ func (st *Runtime) executeList(list *ListNode) (returnValue reflect.Value) {
 			node := node.(*YieldNode)
 			if node.IsContent {
 				if st.content != nil {
-					st.content(st, node.Expression)
+					returnValue = lastReturn(returnValue, st.content(st, node.Expression))
 				}
 			} else {
 				block, has := st.getBlock(node.Name)
 				if has == false || block == nil {
 					node.errorf("unresolved block %q!!", node.Name)
 				}
-				st.executeYieldBlock(block, block.Parameters, node.Parameters, node.Expression, node.Content)
+				returnValue = lastReturn(returnValue, st.executeYieldBlock(block, block.Parameters, node.Parameters, node.Expression, node.Content))
 			}
 		case NodeBlock:
 			node := node.(*BlockNode)
@@ -584,7 +587,7 @@ func (st *Runtime) executeList(list *ListNode) (returnValue reflect.Value) {
 			if has == false {
 				block = node
 			}
-			st.executeYieldBlock(block, block.Parameters, block.Parameters, block.Expression, block.Content)
+			returnValue = lastReturn(returnValue, st.executeYieldBlock(block, block.Parameters, block.Parameters, block.Expression, block.Content))
 		case NodeInclude:
 			node := node.(*IncludeNode)
 			returnValue = lastReturn(returnValue, st.executeInclude(node))
